@@ -132,7 +132,7 @@ def demo_c12():
     m = {"phases": [{"name": "p0", "next": "p0", "calls": shapes[0]},
                     {"name": "p1", "next": "p0", "calls": fprofile.P1_CALLS}], "initial": "p0"}
     case = c12.prepare(m)
-    keys = ("subs", "allvec", "allrc", "locals", "flags", "phaselits", "assoclits")
+    keys = ("subs", "allvec", "allrc", "locals", "flags", "phaselits", "assoclits", "loopflags")
     good = {k: case[k] for k in keys}
     bad = copy.deepcopy(good)
     sub = bad["subs"]["dagrt_phase_func_p0"]
@@ -152,7 +152,7 @@ def demo_c12_trace():
     m = {"phases": [{"name": "p0", "next": "p0", "calls": fprofile.core_shapes()[0]},
                     {"name": "p1", "next": "p0", "calls": fprofile.P1_CALLS}], "initial": "p0"}
     tcs = c12.trace_cases((m, [[(3, 0), (1, 2)]]))
-    keys = ("subs", "allvec", "allrc", "locals", "flags", "phaselits", "assoclits", "log", "nruns")
+    keys = ("subs", "allvec", "allrc", "locals", "flags", "phaselits", "assoclits", "loopflags", "log", "nruns")
     good = {k: tcs[0][k] for k in keys}
     bad = copy.deepcopy(good)
     k = [j for j, e in enumerate(bad["log"]) if e[0] == "deinit"][len(bad["log"]) // 4]
